@@ -39,7 +39,17 @@ PathClauses(e) ==
          (IF ~FMatches(f, e.via_num, e.via_den) THEN {"path-independence"} ELSE {})
          \cup (IF ~FMatches(f, e.num, e.den) THEN {"factor"} ELSE {})
          \cup (IF ~FMatches(FOne, e.back_num, e.back_den) THEN {"round-trip"} ELSE {})
+\* a dimension specification (container over base and derived dimension names) and what it reduces to
+DimSpecClauses(e) ==
+    IF ~PairsCanonical(e.dim) THEN {"canonical"}
+    ELSE IF FromPairs(e.dim) # ExpandDimPairs(e.spec) THEN {"dimension-spec"} ELSE {}
+\* Quantity.check / ureg.check against a dimension specification
+CheckClauses(e) ==
+    IF ~AllResolve(e.a) THEN {"resolve"}
+    ELSE IF e.val # (DimOf(e.a) = ExpandDimPairs(e.spec)) THEN {"predicate-" \o e.which} ELSE {}
 Clauses(e) == CASE e.ev = "conv" -> ConvClauses(e)
+                [] e.ev = "dimspec" -> DimSpecClauses(e)
+                [] e.ev = "check" -> CheckClauses(e)
                 [] e.ev = "path" -> PathClauses(e)
                 [] e.ev = "dim" -> DimClauses(e)
                 [] e.ev = "pred" -> PredClauses(e)
